@@ -5,6 +5,7 @@ import (
 	"go/token"
 	"go/types"
 	"sort"
+	"strings"
 
 	"golang.org/x/tools/go/ssa"
 
@@ -149,4 +150,103 @@ func c16widen(c *core.Ctx, r *core.Reporter) {
 			}
 		}
 	}
+}
+
+// c16flavorprec: typep on a flavor instance reads Flavor.Precedence, subtypep and inheritance read
+// Flavor.inherit; Precedence is computed from inherit. In a function that stores Precedence no write to inherit -
+// a store, or a call of a function of the package that stores it (the :included-flavors pass) - is reachable after
+// a Precedence store: the derived list is computed when its source is complete, or the two disagree and
+// (typep x 'mid) is nil while (subtypep (type-of x) 'mid) is t.
+func c16flavorprec(c *core.Ctx, r *core.Reporter) {
+	const rule = "C16.flavorprec"
+	r.Rule(rule, "in every function that stores a flavor's Precedence (what typep reads), no write to the flavor's inherit list (what subtypep and inheritance read), direct or through a function of the package that stores it, is reachable after a Precedence store", 1)
+	isFlavorField := func(a ssa.Value, name string) bool {
+		fa, ok := a.(*ssa.FieldAddr)
+		return ok && fieldName(fa) == name && strings.HasSuffix(fa.X.Type().String(), "pkg/flavors.Flavor")
+	}
+	// functions that write inherit (transitively, static calls inside pkg/flavors, depth 2)
+	writes := map[*ssa.Function]bool{}
+	var fns []*ssa.Function
+	for _, fn := range c.ModuleFuncs() {
+		if fn.Pkg != nil && core.RelPkg(fn.Pkg.Pkg.Path()) == "pkg/flavors" && fn.Blocks != nil {
+			fns = append(fns, fn)
+		}
+	}
+	for round := 0; round < 3; round++ {
+		for _, fn := range fns {
+			if writes[fn] {
+				continue
+			}
+			for _, b := range fn.Blocks {
+				for _, in := range b.Instrs {
+					if st, ok := in.(*ssa.Store); ok && isFlavorField(st.Addr, "inherit") {
+						writes[fn] = true
+					}
+					if g := core.StaticCalleeOf(in); g != nil && writes[g] {
+						writes[fn] = true
+					}
+				}
+			}
+		}
+	}
+	for _, fn := range fns {
+		var precStores []ssa.Instruction
+		for _, b := range fn.Blocks {
+			for _, in := range b.Instrs {
+				if st, ok := in.(*ssa.Store); ok && isFlavorField(st.Addr, "Precedence") {
+					precStores = append(precStores, in)
+				}
+			}
+		}
+		if len(precStores) == 0 {
+			continue
+		}
+		bad := ""
+		for _, b := range fn.Blocks {
+			for _, in := range b.Instrs {
+				isW := false
+				if st, ok := in.(*ssa.Store); ok && isFlavorField(st.Addr, "inherit") {
+					isW = true
+				}
+				if g := core.StaticCalleeOf(in); g != nil && writes[g] && g != fn {
+					isW = true
+				}
+				if !isW {
+					continue
+				}
+				for _, ps := range precStores {
+					if instrReaches(ps, in) {
+						bad = c.Pos(in.Pos())
+					}
+				}
+			}
+		}
+		r.Decide(bad == "", rule, core.SSAName(fn), c.Pos(precStores[0].Pos()), fmt.Sprintf("a write to inherit reachable after a Precedence store: %q", bad))
+	}
+}
+
+// instrReaches: b can execute after a (same block later, or a's block reaches b's block).
+func instrReaches(a, b ssa.Instruction) bool {
+	if a.Block() == b.Block() {
+		seen := false
+		for _, in := range a.Block().Instrs {
+			if in == a {
+				seen = true
+			} else if in == b && seen {
+				return true
+			}
+		}
+	}
+	reach := map[*ssa.BasicBlock]bool{}
+	stack := append([]*ssa.BasicBlock{}, a.Block().Succs...)
+	for len(stack) > 0 {
+		x := stack[len(stack)-1]
+		stack = stack[:len(stack)-1]
+		if reach[x] {
+			continue
+		}
+		reach[x] = true
+		stack = append(stack, x.Succs...)
+	}
+	return reach[b.Block()]
 }
